@@ -696,18 +696,21 @@ class ODataParser(Parser):
         Returns:
             A list of all identifiers in the ``attr``
         """
-        if isinstance(attr.owner, ast.Identifier):
-            exploded = [attr.owner.name]
-        elif isinstance(attr.owner, ast.Attribute):
-            exploded = self._explode_attr(attr.owner)
-        else:
-            raise NotImplementedError()
-
-        if isinstance(attr.attr, str):
-            exploded.append(attr.attr)
-        elif isinstance(attr.attr, ast.Attribute):
-            exploded.extend(self._explode_attr(attr.attr))
-        else:
-            raise NotImplementedError
+        # Iterative on purpose: paths can be arbitrarily long and must not hit
+        # Python's recursion limit.
+        exploded: List[str] = []
+        todo: List[Union[ast._Node, str]] = [attr]
+        while todo:
+            item = todo.pop()
+            if isinstance(item, str):
+                exploded.append(item)
+            elif isinstance(item, ast.Identifier):
+                exploded.append(item.name)
+            elif isinstance(item, ast.Attribute):
+                # Owner first, so push it last:
+                todo.append(item.attr)
+                todo.append(item.owner)
+            else:
+                raise NotImplementedError()
 
         return exploded
